@@ -31,9 +31,12 @@ vars == <<st>>
 -----------------------------------------------------------------------------
 (* Symbols and labels                                                        *)
 
-LowerSym(c) == CASE c = "A" -> "a" [] c = "B" -> "b" [] c = "C" -> "c" [] c = "D" -> "d"
-                 [] c = "E" -> "e" [] c = "F" -> "f" [] c = "O" -> "o" [] c = "X" -> "x"
-                 [] c = "N" -> "n" [] OTHER -> c
+LowerSym(c) == CASE c = "A" -> "a" [] c = "B" -> "b" [] c = "C" -> "c" [] c = "D" -> "d" [] c = "E" -> "e"
+                 [] c = "F" -> "f" [] c = "G" -> "g" [] c = "H" -> "h" [] c = "I" -> "i" [] c = "J" -> "j"
+                 [] c = "K" -> "k" [] c = "L" -> "l" [] c = "M" -> "m" [] c = "N" -> "n" [] c = "O" -> "o"
+                 [] c = "P" -> "p" [] c = "Q" -> "q" [] c = "R" -> "r" [] c = "S" -> "s" [] c = "T" -> "t"
+                 [] c = "U" -> "u" [] c = "V" -> "v" [] c = "W" -> "w" [] c = "X" -> "x" [] c = "Y" -> "y"
+                 [] c = "Z" -> "z" [] OTHER -> c
 LowerL(l) == [i \in 1..Len(l) |-> LowerSym(l[i])]
 LowerN(n) == [i \in 1..Len(n) |-> LowerL(n[i])]
 Stars(l) == Cardinality({i \in 1..Len(l) : l[i] = "*"})
@@ -114,69 +117,87 @@ DnsnameMatch(dn, h) ==
 
 -----------------------------------------------------------------------------
 (* Typed entries, hosts, certificates                                         *)
-(* entry  [t, n, a, sp]: t = "DNS"   n = name                                 *)
-(*                       t = "DNSIP" a = address id; the DNS entry's text is the canonical text of  *)
-(*                                   that address (sp = "text") or "*." + its tail (sp = "wild")     *)
-(*                       t = "IP"    a = address id, sp in {"plain","alt","nl"} (spelling)          *)
-(*                       t = "OTHER" (email / URI ...: never a match by itself)                     *)
-(* host   [k, n, a, sp]: k = "dns" n = name;  k = "ip" a = address id,                              *)
-(*                       sp in {"plain","alt","zoned","brack","brackzoned"}                          *)
-(* Address ids are opaque: equal id <=> equal address VALUE (packed bytes); the harness maps an id  *)
-(* and a spelling to a concrete literal.                                                            *)
+(* entry  [t, n, a, sp]: t = "DNS"   n = the dNSName text as labels (it may be the text of an IP address:  *)
+(*                                   "10.0.0.1" is <<<<"1","0">>,<<"0">>,<<"0">>,<<"1">>>>)                 *)
+(*                       t = "IP"    a = address id, sp in {"plain","alt","nl"} (spelling of the entry)     *)
+(*                       t = "OTHER" (email / URI ...: never a match by itself)                             *)
+(* host   [k, n, a, sp]: n = the text handed to the API as labels, ALWAYS (str.split("."));                 *)
+(*                       k = "dns": that text is a name;                                                    *)
+(*                       k = "ip":  that text is a literal of address id a in spelling                      *)
+(*                                  sp in {"plain","alt","zoned","brack","brackzoned"}                      *)
+(* Address ids are opaque: equal id <=> equal address VALUE (packed bytes); the harness checks that the    *)
+(* text n of an ip host is exactly the literal it passes for (a, sp).                                      *)
 NoName == <<>>
 NoCN == NoName
 
 Bracketed(h) == h.k = "ip" /\ h.sp \in {"brack", "brackzoned"}
-\* does the code see an IP address?  match_hostname: ipaddress.ip_address after zone stripping;
-\* _match_hostname strips the brackets first when the inside is an IP literal
-SeenAsIP(h, api) == h.k = "ip" /\ (~Bracketed(h) \/ api = "wrap")
+
+\* RULES: what kind of reference identity is the text under the contract of the API it is handed to?
+\*   "raw"  = util.ssl_match_hostname.match_hostname: documented to take the bare host; an IP host is a
+\*            textual IP address (RFC 4291 / 4007 zone allowed).  The URI brackets of RFC 3986 are not part
+\*            of an address, so "[v6]" handed to the raw function is NOT an IP host (and not a hostname
+\*            either): kind "other".  LATITUDE: for "other" the statement's IP clauses do not apply; the
+\*            text is held only to the DNS reject rules label by label (no reading of an entry accepts
+\*            outside Liberal, absolute wildcard rules) and nothing must be accepted.
+\*   "wrap" = connection._match_hostname: the function urllib3 itself calls; it owns the bracket
+\*            stripping, so every spelling of a literal is an IP host.
+RefKind(h, api) == IF h.k = "dns" THEN "dns" ELSE IF Bracketed(h) /\ api = "raw" THEN "other" ELSE "ip"
 
 \* RULES per entry
 EntryMustAccept(e, h, api) ==
-    \/ e.t = "DNS" /\ h.k = "dns" /\ DnsMustAccept(e.n, h.n)
-    \/ e.t = "IP" /\ h.k = "ip" /\ e.a = h.a /\ (h.sp \in {"plain", "alt"} \/ (api = "wrap" /\ h.sp = "brack"))
+    \/ e.t = "DNS" /\ RefKind(h, api) = "dns" /\ DnsMustAccept(e.n, h.n)
+    \/ e.t = "IP" /\ RefKind(h, api) = "ip" /\ e.a = h.a /\ h.sp \in {"plain", "alt", "brack"}   \* zoned: either
 EntryRejectClause(e, h, api) ==
+    LET k == RefKind(h, api) IN
     IF e.t = "OTHER" THEN "NotAnIdentity"
-    ELSE IF e.t \in {"DNS", "DNSIP"} /\ h.k = "ip" THEN "DnsEntryVsIpHost"
-    ELSE IF e.t = "IP" /\ h.k = "dns" THEN "IpEntryVsDnsHost"
-    ELSE IF e.t = "IP" /\ e.a # h.a THEN "IpNotByValue"
-    ELSE IF e.t = "DNSIP" THEN "OutsideLiberal"            \* digits/colons never equal a label name
-    ELSE IF e.t = "DNS" THEN DnsRejectClause(e.n, h.n)
-    ELSE "none"
+    ELSE IF e.t = "DNS" /\ k = "ip" THEN "DnsEntryVsIpHost"
+    ELSE IF e.t = "IP" /\ k = "dns" THEN "IpEntryVsDnsHost"
+    ELSE IF e.t = "IP" /\ e.a # h.a THEN "IpNotByValue"          \* k in {"ip", "other"}
+    ELSE IF e.t = "DNS" THEN DnsRejectClause(e.n, h.n)            \* k in {"dns", "other"}
+    ELSE "none"                                                   \* IP entry of the same address value
 EntryMustReject(e, h, api) == EntryRejectClause(e, h, api) # "none"
 
-\* RULES per certificate [san, cn] with the commonName switch
-SansExist(san) == \E i \in 1..Len(san) : san[i].t \in {"DNS", "DNSIP", "IP"}
-CnMayCount(c, h, cnOn) == cnOn /\ c.cn # NoCN /\ ~SansExist(c.san) /\ h.k = "dns"
+\* RULES per certificate [san, cn] with the commonName switch.
+\* The commonName may count only when it was enabled and no DNS / IP subjectAltName exists, and it is compared
+\* as a DNS name (RFC 6125 6.4.4: a CN-ID has the form of a FQDN and is matched by the rules of 6.4.1-6.4.3
+\* against a DNS reference identity), so it never counts for an IP host: that is the statement's "DNS entries
+\* against IP hosts" applied to the only other place a DNS comparison is made (RFC 2818 3.1: an IP reference
+\* identity is matched by iPAddress subjectAltNames only).  LATITUDE: a SAN list holding only other types
+\* (email ...) neither forces the CN in nor out: must-accept via CN needs san = <<>>, must-reject of the CN
+\* needs a DNS / IP entry.
+SansExist(san) == \E i \in 1..Len(san) : san[i].t \in {"DNS", "IP"}
+CnMayCount(c, h, cnOn, api) == cnOn /\ c.cn # NoCN /\ ~SansExist(c.san) /\ RefKind(h, api) # "ip"
 ListMustAccept(c, h, cnOn, api) ==
     \/ \E i \in 1..Len(c.san) : EntryMustAccept(c.san[i], h, api)
-    \/ cnOn /\ c.cn # NoCN /\ c.san = <<>> /\ h.k = "dns" /\ DnsMustAccept(c.cn, h.n)
+    \/ cnOn /\ c.cn # NoCN /\ c.san = <<>> /\ RefKind(h, api) = "dns" /\ DnsMustAccept(c.cn, h.n)
 ListRejectClause(c, h, cnOn, api) ==
     IF \E i \in 1..Len(c.san) : ~EntryMustReject(c.san[i], h, api) THEN "none"
-    ELSE IF ~CnMayCount(c, h, cnOn)
-         THEN (IF c.san = <<>> THEN (IF c.cn = NoCN THEN "NoIdentity"
-                                     ELSE IF ~cnOn THEN "CommonNameNotEnabled"
-                                     ELSE "DnsEntryVsIpHost")
-               ELSE IF c.cn # NoCN /\ SansExist(c.san) THEN "CommonNameWhenSansExist"
+    ELSE IF CnMayCount(c, h, cnOn, api)
+         THEN (IF DnsMustReject(c.cn, h.n) THEN "CommonName" \o DnsRejectClause(c.cn, h.n) ELSE "none")
+    ELSE IF c.san # <<>>
+         THEN (IF c.cn # NoCN /\ SansExist(c.san) THEN "CommonNameWhenSansExist"
                ELSE EntryRejectClause(c.san[1], h, api))
-    ELSE IF DnsMustReject(c.cn, h.n) THEN "CommonName" \o DnsRejectClause(c.cn, h.n)
-    ELSE "none"
+    ELSE IF c.cn = NoCN THEN "NoIdentity"
+    ELSE IF ~cnOn THEN "CommonNameNotEnabled"
+    ELSE "CommonNameVsIpHost"
 ListMustReject(c, h, cnOn, api) == ListRejectClause(c, h, cnOn, api) # "none"
 ListClass(c, h, cnOn, api) == IF ListMustAccept(c, h, cnOn, api) THEN "must"
                               ELSE IF ListMustReject(c, h, cnOn, api) THEN "mustnot" ELSE "either"
 
-\* the input class of the recorded deviation "ABORT": a DNS entry with more than one wildcard in its
+\* the input class of the recorded deviation "ABORT" (D13): a DNS entry with more than one wildcard in its
 \* left-most label stands before every entry that must be accepted (CertificateError leaves the loop)
 Poisoned(c, h, api) ==
     \E i \in 1..Len(c.san) :
-        /\ c.san[i].t = "DNS" /\ TooManyWildcards(c.san[i].n) /\ ~SeenAsIP(h, api)
+        /\ c.san[i].t = "DNS" /\ TooManyWildcards(c.san[i].n) /\ RefKind(h, api) # "ip"
         /\ \A j \in 1..Len(c.san) : EntryMustAccept(c.san[j], h, api) => j > i
 
-\* MATCHER: match_hostname(cert, hostname, hostname_checks_common_name) behind api
+\* MATCHER: match_hostname(cert, hostname, hostname_checks_common_name) behind api.
+\* does the code see an IP address?  match_hostname: ipaddress.ip_address after zone stripping;
+\* _match_hostname strips the brackets first when the inside is an IP literal
+SeenAsIP(h, api) == h.k = "ip" /\ (~Bracketed(h) \/ api = "wrap")
 EntryMatch(e, h, api) ==       \* "T" / "F" / "ERR" for one SAN entry inside the loop
-    IF e.t = "DNS" THEN (IF SeenAsIP(h, api) \/ h.k = "ip" THEN "F"     \* skipped / "[..]" never equals labels
-                         ELSE DnsnameMatch(e.n, h.n))
-    ELSE IF e.t = "DNSIP" THEN "F"        \* skipped for IP hosts; text differs from every DNS / bracketed host
+    IF e.t = "DNS" THEN (IF SeenAsIP(h, api) THEN "F"                    \* host_ip is None and ...
+                         ELSE DnsnameMatch(e.n, h.n))                    \* incl. the text "[v6]" handed in raw
     ELSE IF e.t = "IP" THEN (IF SeenAsIP(h, api) /\ e.a = h.a THEN "T" ELSE "F")   \* packed comparison
     ELSE "F"
 RECURSIVE SanLoop(_, _, _)
@@ -191,7 +212,7 @@ MatcherList(c, h, cnOn, api) ==          \* TRUE = returns, FALSE = CertificateE
     IF r = "T" THEN TRUE
     ELSE IF r = "ERR" THEN FALSE
     ELSE /\ cnOn /\ ~SeenAsIP(h, api) /\ ~SansExist(c.san) /\ c.cn # NoCN
-         /\ h.k = "dns" /\ DnsnameMatch(c.cn, h.n) = "T"
+         /\ DnsnameMatch(c.cn, h.n) = "T"
 
 -----------------------------------------------------------------------------
 (* Fingerprints.  A pin is a sequence of symbols; Norm is the normalisation  *)
@@ -269,7 +290,7 @@ ListAcceptsStrictExceptAbort == \A c \in Certs(st), h \in RepHosts, on \in BOOLE
     (ListMustAccept(c, h, on, api) /\ ~MatcherList(c, h, on, api)) => Poisoned(c, h, api)
 \* commonName has no influence when SANs exist or the switch is off, and never for IP hosts
 ListCommonNameInert == \A c \in Certs(st), h \in RepHosts, on \in BOOLEAN, api \in Apis :
-    (SansExist(c.san) \/ ~on \/ h.k = "ip") =>
+    (SansExist(c.san) \/ ~on \/ RefKind(h, api) = "ip") =>
         (MatcherList(c, h, on, api) <=> MatcherList([c EXCEPT !.cn = NoCN], h, on, api))
 \* first match wins irrespective of order, unless the recorded deviation is enabled
 ListOrderIrrelevant == KnownDefects = {} => \A c \in Certs(st), h \in RepHosts, on \in BOOLEAN, api \in Apis :
